@@ -668,7 +668,10 @@ func runRuntime(p rtParams, runId int) []rtEvent {
 	if leaks <= 0 || where == nil {
 		where = []string{}
 	}
-	r.log("end", obj{"leaks": leaks, "where": where})
+	r.regMu.Lock()
+	stopped := r.regCb == nil
+	r.regMu.Unlock()
+	r.log("end", obj{"leaks": leaks, "where": where, "stopped": stopped || p.realTimer})
 	r.mu.Lock()
 	defer r.mu.Unlock()
 	return r.events
